@@ -12,7 +12,8 @@ REL = {
     "Org": {"region": ("one", "Region"), "owners": ("many", "Owner")},
     "Tag": {"items": ("many", "Item")},
     "Part": {"item": ("one", "Item")},
-    "Region": {"orgs": ("many", "Org")},
+    "Region": {"orgs": ("many", "Org"), "country": ("one", "Country")},
+    "Country": {"regions": ("many", "Region")},
 }
 # nullable scalar columns reachable through to-one paths, and non-null columns usable in lambda bodies
 COLS = {
@@ -20,11 +21,12 @@ COLS = {
     "Owner": {"name": "Str", "age": "Int", "rank": "Int"},
     "Org": {"name": "Str", "size": "Int"},
     "Region": {"name": "Str"},
+    "Country": {"name": "Str"},
     "Part": {"n": "Int", "label": "Str"},
     "Tag": {"label": "Str", "n": "Int"},
 }
-NONNULL = {"Item": ["k"], "Owner": ["rank"], "Part": ["n", "label"], "Tag": ["label", "n"], "Org": [], "Region": []}
-TABLE_KEY = {"Item": "items", "Owner": "owners", "Org": "orgs", "Region": "regions", "Part": "parts", "Tag": "tags"}
+NONNULL = {"Item": ["k"], "Owner": ["rank"], "Part": ["n", "label"], "Tag": ["label", "n"], "Org": [], "Region": [], "Country": ["name"]}
+TABLE_KEY = {"Item": "items", "Owner": "owners", "Org": "orgs", "Region": "regions", "Part": "parts", "Tag": "tags", "Country": "countries"}
 
 NAMES = ["a", "b", "ab", "A", "", "x y"]
 SMALL = [0, 1, 2, 3, -1]
@@ -44,7 +46,10 @@ def instances(draw):
     n_own = draw(st.integers(0, 3))
     n_tag = draw(st.integers(0, 3))
     n_item = draw(st.integers(1, 4))
-    regions = [{"id": i + 1, "name": draw(opt(st.sampled_from(NAMES), 4))} for i in range(n_reg)]
+    n_cty = draw(st.integers(1, 2))
+    countries = [{"id": i + 1, "name": draw(st.sampled_from(NAMES))} for i in range(n_cty)]
+    regions = [{"id": i + 1, "name": draw(opt(st.sampled_from(NAMES), 4)), "country": draw(st.integers(1, n_cty))}
+               for i in range(n_reg)]
     orgs = [{"id": i + 1, "name": draw(opt(st.sampled_from(NAMES), 4)), "size": draw(opt(st.sampled_from(SMALL), 4)),
              "region": draw(opt(st.integers(1, n_reg))) if n_reg else None} for i in range(n_org)]
     owners = [{"id": i + 1, "name": draw(opt(st.sampled_from(NAMES), 4)), "age": draw(opt(st.sampled_from(SMALL), 4)),
@@ -68,19 +73,25 @@ def instances(draw):
             parts.append({"id": pid, "item": i + 1, "n": draw(st.sampled_from(SMALL)),
                           "label": draw(st.sampled_from(NAMES))})
             pid += 1
-    return {"regions": regions, "orgs": orgs, "owners": owners, "tags": tags, "items": items, "parts": parts}
+    return {"countries": countries, "regions": regions, "orgs": orgs, "owners": owners, "tags": tags, "items": items,
+            "parts": parts}
 
 
 class Graph:
     def __init__(self, inst):
         self.inst = inst
         self.by = {m: {o["id"]: o for o in inst.get(k, [])} for m, k in TABLE_KEY.items()}
+        if not self.by["Country"]:
+            self.by["Country"] = {1: {"id": 1, "name": "c1"}}   # instances recorded before Country existed
+        self.default_country = sorted(self.by["Country"])[0]
 
     def one(self, model, obj, rel):
         """Related object of a to-one relationship, or None."""
         tgt = REL[model][rel][1]
         if model == "Part" and rel == "item":
             fk = obj.get("item")
+        elif model == "Region" and rel == "country":
+            fk = obj.get("country", self.default_country)
         else:
             fk = obj.get(rel)
         return self.by[tgt].get(fk) if fk is not None else None
@@ -99,6 +110,8 @@ class Graph:
             return [i for i in self.inst["items"] if obj["id"] in i.get("tags", [])]
         if (model, rel) == ("Region", "orgs"):
             return [o for o in self.inst["orgs"] if o.get("region") == obj["id"]]
+        if (model, rel) == ("Country", "regions"):
+            return [r for r in self.inst["regions"] if r.get("country", self.default_country) == obj["id"]]
         raise KeyError((model, rel))
 
 
@@ -217,11 +230,14 @@ def path_of(segs):
 
 ROOTS = {
     "Item": {"to_one": {("owner",): "Owner", ("owner", "org"): "Org", ("owner", "org", "region"): "Region",
-                        ("owner", "region"): "Region", ("home",): "Region", ("owner", "home"): "Org"},
+                        ("owner", "region"): "Region", ("home",): "Region", ("owner", "home"): "Org",
+                        ("home", "country"): "Country", ("owner", "region", "country"): "Country",
+                        ("owner", "org", "region", "country"): "Country"},
              "colls": {("parts",): "Part", ("tags",): "Tag", ("owner", "items"): "Item",
                        ("owner", "org", "owners"): "Owner"},
              "scalars": ["i1", "i2", "s1", "k"]},
-    "Owner": {"to_one": {("org",): "Org", ("org", "region"): "Region", ("region",): "Region", ("home",): "Org"},
+    "Owner": {"to_one": {("org",): "Org", ("org", "region"): "Region", ("region",): "Region", ("home",): "Org",
+                         ("region", "country"): "Country", ("org", "region", "country"): "Country"},
               "colls": {("items",): "Item", ("org", "owners"): "Owner"},
               "scalars": ["name", "age", "rank"]},
     "Tag": {"to_one": {}, "colls": {("items",): "Item"}, "scalars": ["label", "n"]},
@@ -344,8 +360,36 @@ def rel_pred(draw, depth, cfg, root="Item"):
     colls = sorted(COLLECTIONS.items())
     if not cfg.deep_owner:
         colls = [c_ for c_ in colls if len(c_[0]) < 3]
+    if depth > 0 and c >= 96:
+        return draw(echo(root, colls))
     segs, cm = draw(st.sampled_from(colls))
     return draw(lam(list(segs), cm, min(depth, 2), cfg))
+
+
+@st.composite
+def echo(draw, root, colls):
+    """Lambdas nested two or three deep whose collection names repeat across levels and models
+    (Owner.items / Tag.items, Item.tags at two levels), next to a top-level lambda over the first
+    collection again: whatever a backend remembers per relationship *name* is then wrong."""
+    segs, cm = draw(st.sampled_from(colls))
+    names = ["x", "w", "z", "u"]
+
+    def nest(var_i, owner_segs, model, levels):
+        var = names[var_i]
+        leaf = draw(scalar_cmp([var], model, NONNULL[model]))
+        op = draw(st.sampled_from(["any", "any", "all"]))
+        if levels > 0 and NESTED.get(model):
+            csegs, cmodel = draw(st.sampled_from(sorted(NESTED[model].items())))
+            inner = nest(var_i + 1, [var] + list(csegs), cmodel, levels - 1)
+            b = ("bool", draw(st.sampled_from(["and", "or"])), leaf, inner) if draw(st.booleans()) else inner
+        else:
+            b = leaf
+        return ("lambda", path_of(owner_segs), op, var, b)
+
+    first = nest(0, list(segs), cm, draw(st.integers(1, 3)))
+    second = draw(lam(list(segs), cm, 0, RelCfg(body_to_one=False)))
+    pair = (first, second) if draw(st.booleans()) else (second, first)
+    return ("bool", draw(st.sampled_from(["and", "or"])), pair[0], pair[1])
 
 
 def features(t):
